@@ -5,6 +5,12 @@ Import ListNotations.
 Require Import BS.C08.Model.
 Local Open Scope nat_scope.
 
+(* ---- the code's configuration (Model.v): both repairs are in ---- *)
+Lemma code_result_shuffle_fixed : result_shuffle_fixed = true.
+Proof. reflexivity. Qed.
+Lemma code_transport_freezes : transport_freezes_env = true.
+Proof. reflexivity. Qed.
+
 (* ---- small list facts ---- *)
 Lemma nth_error_app_l {A} (l l' : list A) i x : nth_error l i = Some x -> nth_error (l ++ l') i = Some x.
 Proof. intro H. rewrite nth_error_app1; auto. apply nth_error_Some. congruence. Qed.
